@@ -211,6 +211,29 @@ class KFillInto(object):
         el.fill(("fi", v))
 
 
+class KCallFillInto(KFillInto):
+    """several candidate methods: callable and fill_into (FillInto prefers fill_into)"""
+
+    def __call__(self, v):
+        return ("c", v)
+
+
+class KCallRunAttr(KCallable):
+    """a callable whose attribute run is data, not a method"""
+    run = 2015
+    fill = "no"
+    fill_into = 1
+
+
+class KRunAttr(object):
+    """attributes named like methods that are not callable: not an element at all"""
+    run = 2015
+    fill = 7
+    compute = 0
+    fill_into = 1
+    request = None
+
+
 class Collector(object):
     def __init__(self):
         self.got = []
@@ -229,6 +252,7 @@ KINDS = {
     "fc": KFC, "fr": KFR, "fill_into_el": KFillInto, "iterable": lambda: [7, 8, 9],
     "lambda": lambda: (lambda v: ("l", v)), "none": lambda: None, "junk": lambda: 5,
     "genfunc": lambda: _genfunc, "call_fc": KCallFC, "fc_fr": KFCFR,
+    "call_fill_into": KCallFillInto, "call_run_attr": KCallRunAttr, "run_attr": KRunAttr,
 }
 ADAPTERS = ["Call", "Run", "FillInto", "FillCompute", "SourceEl"]
 NAMES = ["default", "custom", "missing", "noncallable"]
@@ -353,7 +377,12 @@ def judge_matrix(case):
             return {"nontrivial": False, "classes": ["run-none-skipped"]}
         raise Violation("adapter-accepts-invalid-element",
                         "%s(%s, name=%s) was accepted" % (a, k, nm))
-    if not expect(ad):
+    try:
+        same = expect(ad)
+    except Exception as e:   # noqa  (the twin's own methods are total on VALS: the adapter's method is what failed)
+        raise Violation("adapter-changes-meaning-of-wrapped-method",
+                        "%s(%s, name=%s): using the adapter raised %s: %s" % (a, k, nm, type(e).__name__, e))
+    if not same:
         raise Violation("adapter-changes-meaning-of-wrapped-method",
                         "%s(%s, name=%s)" % (a, k, nm))
     return {"nontrivial": True, "classes": ["accepted"]}
@@ -389,7 +418,7 @@ CHECKS = [
                "Sequence.run vs Split([chain], bufsize in {1..n+1,1000,None}) (optionally beside a second branch) vs FillComputeSeq vs FillSeq+compute+post. "
                "Non-trivial = >=1 pre and >=1 post element, flow>=2 and a bufsize smaller than the flow; or a Slice pre-element."),
     Check("adapter_matrix", judge_matrix, cases=cases_matrix, exhaustive=True,
-          rule="complete matrix adapter {Call,Run,FillInto,FillCompute,SourceEl} x 12 element kinds x method-name choice {default, existing custom, missing, non-callable}: "
+          rule="complete matrix adapter {Call,Run,FillInto,FillCompute,SourceEl} x 17 element kinds x method-name choice {default, existing custom, missing, non-callable}: "
                "the adapter's method equals the wrapped method on sample inputs, or construction raises LenaTypeError."),
     Check("adapter_misc", judge_adapter_misc, strategy=strat_adapter_misc, quick=300, thorough=5000,
           rule="SourceEl over re-iterable containers gives the same flow on every call (also after a partial read); Run(None, run=f)."),
